@@ -535,6 +535,82 @@ def replay_copula_slices(sc):
     return bool(bad), f"copula coupling, slice of even fine increments {incs} on the refined axis {np.round(fine_axis, 3).tolist()}: " + "; ".join(bad)
 
 
+def replay_coupled_jumptimes(sc):
+    """real coupled chain (HEM, inversion), jump-time mode, 300 paths: both components of the path end, at maturity, on the value they
+    had after the last jump, and start at 0"""
+    from rpylib.product.payoff import PayoffDates
+
+    model = concrete_models()["hem"]
+    h = 0.1
+    axis = np.array([-2 * h, -h, 0.0, h, 2 * h])
+    grid = GS.CTMCGrid(h=h, origin_coordinate=2, axes=[axis.copy()])
+    cmc = CMC.CouplingMarkovChain(model, SamplingMethod.INVERSION, grid)
+    prod = StubProduct(kind=PayoffDates.STOCHASTIC, times=TIMES)
+    cmc.initialisation(prod)
+    cmc.next_level(mc_paths=300, path_managers=[StubPathManager()], product=prod)
+    st = np.random.get_state()
+    np.random.seed(5)
+    bad = []
+    try:
+        for _ in range(300):
+            p = cmc.simulate_one_path_with_coupling()
+            J = np.asarray(p.jump_path, dtype=float)
+            if J.shape[1] >= 3 and (abs(J[0, -1] - J[0, -2]) > 1e-12 or abs(J[1, -1] - J[1, -2]) > 1e-12 or abs(J[0, 0]) + abs(J[1, 0]) > 0):
+                bad.append(f"jump path (fine, coarse) = {J.round(4).tolist()}: the value at maturity differs from the value after the last jump")
+                break
+    finally:
+        np.random.set_state(st)
+    return bool(bad), "HEM, coarse grid of 5 states refined once, jump-time mode: " + "; ".join(bad)
+
+
+def h_coupled_jumptimes(ctx, prefix="C03"):
+    """assembly of the coupled path in jump-time mode from a scripted fine chain (three jumps in one interval): times = [0, jump times, T];
+    each component starts at 0, follows its own cumulated values and repeats its own last value at maturity"""
+    from rpylib.product.payoff import PayoffDates
+
+    axis, h, pivot = sym_axis(ctx, 1, 1)
+    grid = make_grid(h, pivot, [axis])
+    model = A.abs_levy_model(ctx, "nu", sigma=0.0, a=0.0, finite_activity=True, finite_variation=True)
+    T = ctx.real("T")
+    try:
+        cmc = CMC.CouplingMarkovChain(model, SamplingMethod.INVERSION, grid)
+        prod = StubProduct(kind=PayoffDates.STOCHASTIC, maturity=T, times=np.array([0.0, T], dtype=object))
+        cmc.initialisation(prod)
+        cmc.next_level(mc_paths=0, path_managers=[StubPathManager()], product=prod)
+    except ZeroDivisionError:
+        raise PathAbort()
+    sim = cmc._path_coupling_simulation
+    fine_axis, piv = grid.axes[0], grid.origin_coordinate.value
+    incs = [2, -2, 2]  # even increments: copied to the coarse component (no coupling uniform needed)
+    times = [ctx.real(f"tau{k}") for k in range(3)]
+    ctx.assume(AND(times[0] > 0, times[1] > times[0], times[2] > times[1], T > times[2]))
+    vals = np.empty(3, dtype=object)
+    run = 0.0
+    for k, i in enumerate(incs):
+        run = run + fine_axis[piv + i]
+        vals[k] = run
+
+    class _PS:
+        def simulate_markov_chain(self_inner):
+            return MC.MarkovChain(np.array(times, dtype=object), [vals], [list(incs)])
+
+    cmc.fine_process._path_simulation = _PS()
+    shims.RNG.reset()
+    rp = (replay_coupled_jumptimes, lambda m: {})
+    try:
+        path = sim.simulate_one_path_with_coupling()
+    except ZeroDivisionError:
+        raise PathAbort()
+    tt, J = path.times(), path.jump_path
+    ctx.prove(f"{prefix}.coupled_jumptimes.times_are_zero_jump_times_maturity", AND(len(tt) == 5, EQ(tt[0], 0), *[EQ(tt[k + 1], times[k]) for k in range(3)], EQ(tt[4], T)), replay=rp)
+    ok = np.shape(J) == (2, 5)
+    ctx.prove(f"{prefix}.coupled_jumptimes.components_aligned_with_times", ok, replay=rp)
+    if ok:
+        want = [0.0, vals[0], vals[1], vals[2], vals[2]]
+        ctx.prove(f"{prefix}.coupled_jumptimes.fine_component_follows_its_values_and_repeats_the_last", AND(*[EQ(J[0, k], want[k]) for k in range(5)]), replay=rp)
+        ctx.prove(f"{prefix}.coupled_jumptimes.coarse_component_follows_its_values_and_repeats_the_last", AND(*[EQ(J[1, k], want[k]) for k in range(5)]), replay=rp)
+
+
 def h_copula_slices(ctx):
     """several fine jumps inside one interval (copula coupling): the coarse values handed back are the running sums, one per jump"""
     d, npts = 2, 1
@@ -603,6 +679,7 @@ def harnesses(tier):
     for kind in ("list", "array"):
         hs.append(Harness(f"slices.{kind}", h_slices, {"kind": kind}, max_paths=200))
     hs.append(Harness("copula.slices", h_copula_slices, max_paths=200))
+    hs.append(Harness("coupled.jumptimes", h_coupled_jumptimes, max_paths=400))
     for par in ("ee", "oo", "oe", "eo"):
         for w in range(len(INCS[par])):
             if q and par in ("oe", "eo") and w > 0:
